@@ -27,6 +27,18 @@ Check(t) ==
     /\ (l > 1 /\ TraceLog[l - 1].tid = t.tid) =>
          Report("C17_DeleteRemovesExactlyOwned", C17_DeleteDoesNotCrash(St(TraceLog[l - 1]), t.op, t.pk, t.status),
                 [op |-> t.op, status |-> t.status, kind |-> "deletion of an existing object answered 5xx"])
+    \* editing a multi-period stream (its name in particular): names stay unique because a name in use is *refused*, not
+    \* because the database's constraint turns the commit into a server error; an edit removes no rows
+    /\ (l > 1 /\ TraceLog[l - 1].tid = t.tid /\ t.op = "rename_mps") =>
+         LET a == St(TraceLog[l - 1]) IN
+         /\ Report("C17_NamesUnique", t.status < 500,
+                   [op |-> t.op, from |-> t.a, to |-> t.b, status |-> t.status, kind |-> "edit of a multi-period stream answered 5xx"])
+         /\ Report("C17_NamesUnique",
+                   (t.applied = 1 /\ t.a # t.b) => (\A m \in a.mps : m.name # t.b) /\ (\E m \in b.mps : m.name = t.b /\ m.pk = t.pk),
+                   [op |-> t.op, from |-> t.a, to |-> t.b, kind |-> "accepted rename to a name in use / not carried out"])
+         /\ Report("C17_DeleteRemovesExactlyOwned",
+                   Pks(a.mps) = Pks(b.mps) /\ a.periods = b.periods /\ a.streams = b.streams /\ a.files = b.files /\ a.blobs = b.blobs,
+                   [op |-> t.op, kind |-> "an edit removed or created rows"])
     \* creating a stream under a directory that is already in use creates nothing and removes nothing (names stay unique;
     \* no operation but a deletion removes rows): whatever the answer, streams, files and blobs are as before
     /\ (l > 1 /\ TraceLog[l - 1].tid = t.tid /\ t.op = "add_stream") =>
